@@ -22,18 +22,20 @@ def _box(lv):
 def _form(val, k, puan):
     """the three accepted value forms, rotated"""
     import numpy
-    k = k % 5
+    k = k % 7
     if k == 0: return int(val)
     if k == 1: return (int(val), int(val))
     if k == 2: return puan.Bounds(int(val), int(val))
     if k == 3: return numpy.int64(val)
-    return (numpy.int64(val), int(val))
+    if k == 4: return (numpy.int64(val), int(val))
+    if k == 5: return (numpy.int32(val), numpy.int32(val))
+    return numpy.int32(val)
 
 def _valid(m):
     return (not proj.is_var(m)) and m.errors() == []
 
 def _mk(case):
-    return B.build(case["recipe"], leaf_str=case.get("leaf_str", False), via=case.get("via", "ctor"))
+    return B.build(case["recipe"], leaf_str=case.get("leaf_str", False), via=case.get("via", "ctor"), style=case.get("style", 0))
 
 def _compounds(m):
     out, seen = [], set()
@@ -62,6 +64,14 @@ def drv_evaluate(case):
         interp.update({i: _form(v, k + 1, puan) for i, v in over.items()})
         if over:
             arg1, arg2 = dict(interp), dict(interp)
+            if k % 4 == 3:
+                # other mapping types are legitimate interpretations too (they answer differently for ABSENT keys)
+                import collections
+                arg1 = collections.defaultdict(int, interp); arg2 = collections.Counter() ; arg2.update({})
+                arg2 = collections.defaultdict(int, interp)
+        elif k % 5 == 4:
+            import collections
+            arg1 = collections.defaultdict(int, interp); arg2 = collections.defaultdict(int, interp)
         else:
             shared.clear(); shared.update(interp)
             arg1 = arg2 = shared
@@ -278,6 +288,17 @@ def drv_assume(case):
             ev_u = _mk(case).evaluate(union)
             pts.append({"rest": proj.pairs_iv(I1, tok), "ev_assumed": proj.bounds(ev_a), "ev_union": proj.bounds(ev_u)})
         out.append({"op": "assume", "model": pm, "dict": proj.pairs_iv(Df, tok), "res": proj.node(r, tok), "points": pts})
+    # one object assumed several times: what an earlier call returned must not change afterwards
+    dicts = _dict_options(m0, rng, 1, 6)
+    if len(dicts) >= 3:
+        tok = proj.Tok()
+        m = _mk(case)
+        kept = []
+        for k, D in enumerate(dicts[1:4]):
+            Df = {i: _as_form(o, k, puan) for i, o in D.items()}
+            r = m.assume(dict(Df))
+            kept.append((r, proj.node(r, tok)))
+        out.append({"op": "results_stable", "first": [p for _, p in kept], "later": [proj.node(r, tok) for r, _ in kept]})
     return out
 
 def drv_reduce(case):
@@ -330,6 +351,9 @@ def drv_build(case):
             d = B.to_cicje(r)
             if d is None: continue
             m = pg.Imply.from_cicJE(d)
+        elif via in ("ctor_sub", "ctor_gen", "ctor_map"):
+            c2["via"] = "ctor"; c2["style"] = {"ctor_sub": 1, "ctor_gen": 2, "ctor_map": 3}[via]
+            m = _mk(c2)
         else:
             m = _mk(c2)
         if proj.is_var(m) or m.errors() != []:
@@ -436,6 +460,16 @@ def drv_b64(case):
     import zlib
     if not (is_cfg or zlib.crc32(s.encode()) % 4 == 0):
         return out
+    try:
+        lv0 = proj.leaves(m)
+        derived = [m.reduce()] + ([m.assume({lv0[0].id: proj.I(lv0[0].bounds.lower)})] if lv0 else [])
+    except BaseException:
+        derived = []
+    for dm in derived:
+        if proj.is_var(dm): continue
+        dback = pg.from_b64(dm.to_b64())
+        out.append({"op": "b64", "model": proj.node(dm, tok), "back": proj.node(dback, tok), "shorts_before": _shorts(dm, tok),
+                    "shorts_after": _shorts(dback, tok), "q_before": 0, "q_after": 0, "again": proj.node(dm, tok), "derived": True})
     s2 = m.to_b64()                                   # m has answered the whole battery by now
     back2 = pg.from_b64(s2)
     out.append({"op": "b64", "model": proj.node(m, tok), "back": proj.node(back2, tok),
@@ -660,13 +694,26 @@ def drv_compress(case):
     arr = pnd.integer_ndarray(numpy.array(x, dtype=numpy.int64))
     axis = {"2d0": 0, "2d1": 1, "flat": None, "3d0": 0}[kind]
     runs = []
+    big = bool(numpy.abs(numpy.asarray(x, dtype=object)).max() >= 2 ** 31) if numpy.asarray(x).size else False
     for m in METHODS:
+        if big and m not in ("prio", "rank", "shadow"):
+            continue                      # these return input values, which TLC (32-bit integers) cannot hold
         r = arr.ndint_compress(method=m, axis=axis) if axis is not None else arr.ndint_compress(method=m)
         runs.append({"m": m, "r": _nest(numpy.asarray(r).tolist())})
     xs = x
     if kind == "flat":
         xs = numpy.asarray(x).flatten().tolist()
-    return [{"op": "compress", "kind": kind, "x": xs, "runs": runs}]
+    if big:
+        # prio / rank / shadow depend only on signs, zeros and the ORDER of the magnitudes: the magnitudes are renamed by their
+        # dense rank (an order isomorphism) so that TLC can read them; the recorded results are left as they are
+        mags = sorted({abs(int(v)) for v in numpy.asarray(xs, dtype=object).flatten().tolist() if v != 0})
+        rank = {v: i + 1 for i, v in enumerate(mags)}
+        def ren(v):
+            if isinstance(v, list): return [ren(i) for i in v]
+            v = int(v)
+            return 0 if v == 0 else (rank[abs(v)] if v > 0 else -rank[abs(v)])
+        xs = ren(xs)
+    return [{"op": "compress", "kind": kind, "x": xs, "runs": runs, "renamed": big}]
 
 def _recv(call, tok):
     P = call["polyhedron"]
@@ -704,7 +751,9 @@ def drv_select(case):
             s = solvers.Capture(mode)
             exc, reported = "", []
             try:
-                res = list(cfg.select(*[dict(p) for p in prios], solver=s, only_leafs=only_leafs))
+                import numpy as _np
+                np_prios = [{k: (_np.int64(v) if (j + len(p)) % 2 else int(v)) for k, v in p.items()} for j, p in enumerate(prios)]
+                res = list(cfg.select(*np_prios, solver=s, only_leafs=only_leafs))
                 reported = [[[tok(k), proj.I(v)] for k, v in r.items()] if isinstance(r, dict) else [[tok(k), proj.I(v)] for k, v in r[0].items()] for r in res]
             except Exception as ex:
                 exc = type(ex).__name__
@@ -857,7 +906,12 @@ def drv_reference(case):
                        "poly": proj.cfgpoly(new.ge_polyhedron, tok), "sel": _abs_call(new, "select", None, None, tok, case)[0]}
                 rcp[h] = _add_rule(rcp[h], c["rule"], obj.id)
         else:
-            res, _ = _abs_call(obj, op, c.get("d"), c.get("rule"), tok, case)
+            try:
+                res, _ = _abs_call(obj, op, c.get("d"), c.get("rule"), tok, case)
+            except (KeyboardInterrupt, SystemExit):
+                raise
+            except BaseException as ex:       # a call the library refuses on a fresh object too (recorded as its result)
+                res = {"raised": type(ex).__name__}
         out.append(res)
     return [{"op": "ref", "res": out}]
 
